@@ -63,7 +63,9 @@ class PolarizedRays(RealRays):
         if state.is_polarized:
             E0 = self._get_3d_electric_field(state)
             E1 = self.get_output_field(E0)
-            self.i = np.sum(np.abs(E1)**2, axis=1)
+            # the polarization transmittance scales the scalar intensity,
+            # which carries apertures, absorption and simple coatings
+            self.i = self.i * np.sum(np.abs(E1)**2, axis=1)
         else:
             # Local x-axis field
             state_x = PolarizationState(is_polarized=True, Ex=1.0, Ey=0.0,
@@ -77,10 +79,11 @@ class PolarizedRays(RealRays):
             E0_y = self._get_3d_electric_field(state_y)
             E1_y = self.get_output_field(E0_y)
 
-            # average two orthogonal polarizations to get mean intensity,
-            # scale by initial ray intensity
-            self.i = (np.sum(np.abs(E1_x)**2, axis=1) +
-                      np.sum(np.abs(E1_y)**2, axis=1)) * self._i0 / 2
+            # average two orthogonal polarizations to get the mean
+            # polarization transmittance and scale the scalar intensity
+            # (launch intensity, apertures, absorption, simple coatings) by it
+            self.i = self.i * (np.sum(np.abs(E1_x)**2, axis=1) +
+                               np.sum(np.abs(E1_y)**2, axis=1)) / 2
 
     def update(self, jones_matrix: np.ndarray = None):
         """
